@@ -34,6 +34,7 @@ structure DState where
   rng : List UInt64 := []
   handlerReturns : Bool := false
   dead : Bool := false
+  slist : SList := {}
   oracle : Bool := false
   /-- oracle mode: the registry as of the latest completed update, per policy -/
   snaps : List (String × Registry) := []
@@ -121,7 +122,7 @@ def nextChain (c : Compiled) (mi : Nat) : Nat → Nat → List Nat × Option Cel
 /-- spec-level answer to a call: `Spec.selectB` on the registry of the latest update -/
 def oracleCall (cfg : Cfg) (reg : Registry) (m : MethodRec) (ids : List Nat) : String :=
   let proj := cfg.proj
-  let regd := fun (id : Nat) => reg.classes.any (fun r => proj r.id == proj id)
+  let regd := fun (id : Nat) => reg.classes.any (fun r => r.id == id)
   match ids.find? (fun id => !regd id) with
   | some id => if cfg.checks then s!"raised unknown_class {id}" else "illegal"
   | none =>
@@ -181,6 +182,16 @@ def step (d : DState) (tok : List String) : DState × List String :=
     | some cfg =>
       if d.pols.any (fun e => e.1 == n) then ({ d with cur := some n }, [])
       else ({ d with cur := some n, pols := d.pols ++ [(n, { cfg := cfg })] }, [])
+  | "echo" :: rest => (d, ["@" ++ rest.headD ""])
+  | "lpush" :: n :: _ => ({ d with slist := d.slist.pushBack (n.toNat?.getD 0) }, [])
+  | "lremove" :: n :: _ => ({ d with slist := d.slist.remove (n.toNat?.getD 0) }, [])
+  | "lclear" :: _ => ({ d with slist := d.slist.clear 256 }, [])
+  | "ldump" :: rest =>
+    let maxn := (rest.head?.bind String.toNat?).getD 8
+    let items := d.slist.toList 201
+    let o := fun (x : Option Nat) => toString (x.getD 0)
+    let links := (List.range maxn).map (fun i => let l := d.slist.links (i + 1); o l.prev ++ "/" ++ o l.next)
+    (d, [s!"list {fmtNats items} size={d.slist.size 100000} empty={if d.slist.empty then 1 else 0} links=[" ++ ",".intercalate links ++ "]"])
   | "rng" :: ms => ({ d with rng := ms.filterMap (fun s => s.toNat?.map UInt64.ofNat) }, [])
   | cmd :: args =>
     match d.get with
